@@ -8,8 +8,8 @@ Binding: the label's std::set<std::size_t> of vertex indices (< 64) is a bit mas
 Proved over the FULL domain (every distance, every edge count, every pair / triple of 64-bit vertex sets):
   contract  less(a,b) is decided by the distance, then the edge count, then: a proper subset is smaller; otherwise the set
             whose smallest non-common element is smaller
-  lemmas    irreflexive and asymmetric for all labels; on labels with vertex sets of EQUAL SIZE (paths with the same number of
-            edges) also total and transitive - the strict total order lex_dijkstra's heap and tie-breaking need.
+  lemmas    irreflexive, asymmetric and total for all labels; on labels with vertex sets of EQUAL SIZE (paths with the same number
+            of edges) also transitive - the strict total order lex_dijkstra's heap and tie-breaking need.
 (Transitivity does not hold across sets of different sizes; the code never compares such labels with equal edge counts, because
 the vertex set of a simple path with k edges has k+1 elements.)"""
 from lib import xtract as X
@@ -67,7 +67,7 @@ void h_laws(void) {
   __CPROVER_assert(!aa, "lemma.irreflexive");
   __CPROVER_assert(!(ab && ba), "lemma.asymmetric");
   bool same = a.distance == b.distance && a.edge_count == b.edge_count && a.vset == b.vset;
-  if (POP(a.vset) == POP(b.vset)) __CPROVER_assert(same || ab || ba, "lemma.total: two different labels with vertex sets of equal size are ordered");
+  __CPROVER_assert(same || ab || ba, "lemma.total: two different labels are ordered");
   if (POP(a.vset) == POP(b.vset) && POP(b.vset) == POP(c.vset)) __CPROVER_assert(!(ab && bc) || ac, "lemma.transitive on labels with vertex sets of equal size");
   __CPROVER_assert(0, "VP_REACH end of lemma harness");
 }
